@@ -270,11 +270,19 @@ func (t CollectionPath) Of(i Item) Item {
 			return nil
 		})
 	}
-	if OfActor.Contains(t) && ActorTypes.Contains(i.GetType()) {
-		OnActor(i, func(a *Actor) error {
+	if OfActor.Contains(t) {
+		// NOTE: an actor is recognised by being an Actor value, not by its type name: the generic "Actor" type
+		// and an actor without a type carry explicit collections just as a Person does
+		if a, ok := i.(*Actor); ok {
 			it = t.ofActor(a)
-			return nil
-		})
+		} else if a, ok := i.(Actor); ok {
+			it = t.ofActor(&a)
+		} else if ActorTypes.Contains(i.GetType()) {
+			OnActor(i, func(a *Actor) error {
+				it = t.ofActor(a)
+				return nil
+			})
+		}
 	}
 	if OfObject.Contains(t) {
 		// NOTE: only the collections an object itself can carry are looked up on the object, otherwise the
